@@ -103,6 +103,7 @@ def chk_gctm(inp):
     profs = [(numpy.array([0., 5000., 6500., 8000., 9500.]), numpy.array([4., 1., 2., 1.5, .5]) * 1e-13),
              (numpy.r_[0., numpy.linspace(8000., 15000., 12)], numpy.r_[5., 0.5 + 0.2 * numpy.sin(numpy.arange(12)) ** 2] * 1e-13),
              (numpy.array([0., 200., 7000., 9000., 12000.]), numpy.array([3., 2., 1., 1., .4]) * 1e-13)]
+    profs += [(numpy.linspace(500., 16000., 32), (1.2 + numpy.cos(numpy.arange(32) / 5.)) * 1e-14), (numpy.linspace(2400., 12000., 25), (1. + 0.5 * numpy.sin(numpy.arange(25) / 3.)) * 1e-14)]
     for h, p in profs:
         for L in (2, 3):
             hL, cL = PC.GCTM(h, p, L)
